@@ -19,7 +19,7 @@ ENDS = [(0, 0x55, 0x66, 0x77), (2, 0, 0, 0), (0, 0xaaaa, 0xbbbb, 0xcccc)]
 
 def numeric_domain(k, tier):
     if tier == 'quick':
-        return [0x1111 * (k + 1), 1, 1 << 31, (1 << 32) - 1, M64]
+        return [0x1111 * (k + 1), 0, 1, 1 << 31, (1 << 32) - 1, M64]
     return [0x1111 * (k + 1), 0, 1, 0x7f, 1 << 31, (1 << 32) - 1, 1 << 63, M64]
 
 
@@ -85,8 +85,21 @@ def prefix_events(name, s, kind):
     return []
 
 
+_RELATED = {}
+
+
+def related_codes(name):
+    """ids of table names that start with the call's name (its _extended_info / _nocancel-less relatives) and have no decoder."""
+    if name not in _RELATED:
+        from pykdebugparser.traces_parser import TracesParser
+        handlers = TracesParser(E.codes(), {}, {}).handlers
+        base = name[:-len('_nocancel')] if name.endswith('_nocancel') else name
+        _RELATED[name] = sorted(c for c, nm in E.codes().items() if nm.startswith(base) and nm != name and nm not in handlers)[:4]
+    return _RELATED[name]
+
+
 def render(name, s, e, nlook, prefix=None):
-    p = E.new_traces_parser(prefilled=prefix in ('other-thread-open', 'other-thread-crossing'))
+    p = E.new_traces_parser(prefilled=prefix in ('other-thread-open', 'other-thread-crossing', 'thread-known-to-the-map'))
     _, e2 = D.in_domain(name, 'se', s, e, 1)
     # keep the START words exactly as enumerated; only END enum positions are forced in-domain
     pre = prefix_events(name, s, prefix)
@@ -100,6 +113,9 @@ def render(name, s, e, nlook, prefix=None):
         oth = 'BSC_getppid' if name != 'BSC_getppid' else 'BSC_getpid'
         pre = [E.ev(oth, 1, OTHER)]
         between = [E.ev(oth, 2, (0, 0x9e9e, 0x9f9f, 0x9a9a))]
+    if prefix == 'related-records-inside':
+        # records of the call's own family that the tool does not decode (e.g. <call>_extended_info), with words of their own, in the window
+        between = [E.ev(c, 0, OTHER) for c in related_codes(name)]
     if prefix == 'long-window':
         # 5000 stand-alone records of the same thread (with words that are nobody's argument) between START and END
         between = [E.ev('MACH_vm_page_release' if i % 2 else 'MACH_WAIT', 0, OTHER) for i in range(5000)]
@@ -178,7 +194,7 @@ class C09(Check):
             'enum-valued positions (frozen table) over every member, ioctl request over Darwin _IOC words - x 3 END tuples '
             '(success, failure, other values) with 0 lookups, every point with <=2 non-default words with 2 nested lookups, and every '
             'point with <=1 non-default word preceded by {an earlier START of the same call whose END was lost, a stray END, two stray ENDs with another record between them, the same '
-            'call still open on another thread (parser built with a populated thread map; also crossing: A.START B.START A.END B.END), another call still open on the same thread, another call opened inside the window and still open at its END, two calls whose ENDs were lost, another call of the same thread that started before and ends inside the window (overlapping, not nested)} carrying words that never equal an '
+            'call still open on another thread (parser built with a populated thread map; also crossing: A.START B.START A.END B.END), another call still open on the same thread, another call opened inside the window and still open at its END, two calls whose ENDs were lost, another call of the same thread that started before and ends inside the window (overlapping, not nested), the thread known to the thread map the parser was built with, undecoded records of the call s own family (names that begin with the call s name, e.g. _extended_info) inside the window} carrying words that never equal an '
             'enumerated one; windows whose nested lookups carry timestamps below the START tick and whose END carries the START tick; two consecutive calls per decoder read from v2 / v3 dump files whose records all carry the same timestamp; and one window per decoder with 5000 stand-alone same-thread records between START and END. '
             'Oracle: every integer-literal token at position k is one of the renderings {u64, i64, u32, i32 decimal; u64, u32 hex} of '
             'START word k in every run; no numeric token beyond position 3; call part identical across END tuples. BSD / Mach decoders the tree registers beyond those of the pinned commit are fed the numeric product and held to the same rule where they render. Distinct by '
@@ -258,7 +274,7 @@ class C09(Check):
             for s in deviation_bounded(doms, 1):
                 if name in ('BSC_getsockopt', 'BSC_setsockopt') and s[1] in (1, 0xffff):
                     continue
-                for prefix in ('stale-start', 'stray-end', 'two-stray-ends', 'other-thread-open', 'other-thread-crossing', 'other-call-open', 'other-call-opened-inside', 'two-lost-ends-before', 'odd-timestamps', 'same-thread-crossing') + (('long-window',) if s == tuple(d[0] for d in doms) else ()):
+                for prefix in ('stale-start', 'stray-end', 'two-stray-ends', 'other-thread-open', 'other-thread-crossing', 'other-call-open', 'other-call-opened-inside', 'two-lost-ends-before', 'odd-timestamps', 'same-thread-crossing', 'thread-known-to-the-map') + (('related-records-inside',) if related_codes(name) else ()) + (('long-window',) if s == tuple(d[0] for d in doms) else ()):
                     nl = 2 if prefix == 'odd-timestamps' else 0
                     bad, call = judge(name, s, nl, prefix)
                     self._acc(acc, name, s, nl, (bad[0] + ':after-' + prefix, bad[1]) if bad else None, call, prefix)
